@@ -11,7 +11,7 @@ cmd = ["/venv/bin/python", "-m", "pytest", "-ra", "-q", "-p", "no:cacheprovider"
        "--continue-on-collection-errors", "--junitxml=" + xmlf]
 if jobs != "0":
     cmd += ["-n", jobs]
-subprocess.run(cmd, cwd="/repo", env=env, stdout=subprocess.DEVNULL, stderr=subprocess.DEVNULL)
+subprocess.run(cmd, cwd=os.environ.get("BASE_REPO", "/repo"), env=env, stdout=subprocess.DEVNULL, stderr=subprocess.DEVNULL)
 passed = set()
 for tc in ET.parse(xmlf).getroot().iter("testcase"):
     if not any(c.tag in ("failure", "error", "skipped") for c in tc):
